@@ -319,10 +319,6 @@ func (val Node) ParseI64(ctx *Context) (int64, bool) {
 		return 0, false
 	}
 
-	if s == "null" {
-		return 0, true
-	}
-
 	i, err := ParseI64(s)
 	if err != nil {
 		return 0, false
@@ -351,10 +347,6 @@ func (val Node) ParseU64(ctx *Context) (uint64, bool) {
 	s, ok := val.AsStrRef(ctx)
 	if !ok {
 		return 0, false
-	}
-
-	if s == "null" {
-		return 0, true
 	}
 
 	i, err := ParseU64(s)
